@@ -307,6 +307,36 @@ def UL.runOps (A : Arith) : UL Bucket → List ULOp → Option (UL Bucket)
     | none => UL.runOps A u rest
     | some r => UL.runOps A r.2 rest
 
+/-! ## The dispatcher's flow-control step
+
+    pkg/gateway/proxy/dispatcher/dispatcher.go  ServeHTTP:
+        flowcontrol := endpointPicker.FlowControl()
+        if !flowcontrol.TryAcquire() { 429 (Retry-After unless the resource is "events"); return }
+        defer flowcontrol.Release()        -- a no-op for a token bucket
+        ... forward
+
+What the server classified the request as is NOT consulted: every request the dispatch policy sends to a schema is
+charged against that schema's limiter. -/
+
+/-- what the server classifies a request as (RequestInfo / ExtraRequestInfo) -/
+structure ReqShape where
+  verb : Nat
+  subresource : Nat
+  resourceRequest : Bool
+  longRunning : Bool
+  upgrade : Bool
+deriving Repr
+
+/-- forwarded (`true`) or answered 429 (`false`), and the bucket afterwards -/
+def dispatch (A : Arith) (b : Bucket) (_r : ReqShape) (now : Rat) : Bool × Bucket := b.tryAcquire A now
+
+def dispatchRun (A : Arith) : Bucket → List (ReqShape × Rat) → List Bool × Bucket
+  | b, [] => ([], b)
+  | b, (r, now) :: rest =>
+    let x := dispatch A b r now
+    let q := dispatchRun A x.2 rest
+    (x.1 :: q.1, q.2)
+
 /-! ## Small-step system: callers, the mutex, the clock
 
 `mu` is the `Option` in `Sys.crit`: at most one caller is between `mu.Lock()` and `mu.Unlock()` (Go's mutual
